@@ -135,7 +135,7 @@ Authentic(r, ctx) ==
 VARIABLES cgca, cid, csrv, primary, cdisk, mutex, rnd
 svars == <<cgca, cid, csrv, primary, cdisk, mutex, rnd>>
 
-RoundIds == {"r1", "r2"}
+RoundIds == {"r1", "r2", "r3", "r4"}   \* names for rounds in flight at the same time
 IdleR == [phase |-> "idle", failed |-> {}, attempts |-> 0, gca |-> "none", cur |-> "zero", skip |-> {}]
 Idle == [x \in RoundIds |-> IdleR]
 AllIdle == \A x \in RoundIds : rnd[x].phase = "idle"
